@@ -612,16 +612,18 @@ func (state *BuildState) LogBuildError(label BuildLabel, status BuildResultStatu
 // logResult logs a build result directly to the state's queue.
 func (state *BuildState) logResult(result *BuildResult) {
 	result.Time = time.Now()
-	state.progress.internalResults <- result
+	// Record the failure before publishing the result; whoever receives it may stop the build
+	// and read these flags to decide the exit status.
 	if result.Status.IsFailure() {
-		state.progress.failed.Store(true)
 		switch result.Status {
 		case TargetBuildFailed:
 			state.progress.buildFailed.Store(true)
 		case TargetTestFailed:
 			state.progress.testFailed.Store(true)
 		}
+		state.progress.failed.Store(true)
 	}
+	state.progress.internalResults <- result
 }
 
 // forwardResults runs indefinitely, forwarding results from the internal
